@@ -13,7 +13,7 @@ From Flocq Require Import Core.Core IEEE754.BinarySingleNaN.
 From Coq Require Import ZArith Floats.SpecFloat Bool List String Ascii.
 Require Import Blots.Num Blots.Outcome Blots.gen.Builtins Blots.Ast Blots.NumText.
 Require Import Blots.gen.NumGrammar.
-Require Import Blots.proofs.NumText Blots.proofs.NumTextStr Blots.proofs.NumTextFloat Blots.proofs.NumTextRT Blots.proofs.NumTextRef Blots.proofs.NumTextDigits.
+Require Import Blots.proofs.NumText Blots.proofs.NumTextStr Blots.proofs.NumTextFloat Blots.proofs.NumTextRT Blots.proofs.NumTextRef Blots.proofs.NumTextDigits Blots.proofs.NumTextJson.
 Import ListNotations.
 Open Scope string_scope.
 Open Scope Z_scope.
@@ -129,6 +129,20 @@ Check C16_json_reads_back :
     ref_str_parse (json_print x) = Some x ->
     json_parse (json_out json_print x) = Ok x.
 Print Assumptions C16_json_reads_back.
+
+(* with the float_roundtrip build of serde_json — as transcribed in serde_number true, the model the
+   correspondence runs against the patched tree — the JSON round trip needs only the contract on the
+   OUTPUT text ([-]int[.frac][e[-]exp] with a fraction or exponent, denoting x): the transcribed parser
+   (sign, leading-zero rule, u64 accumulation with overflow, fraction, exponent) reads it back as x.
+   Axiom-free. *)
+Theorem C16_json_reads_back_exact_build : forall (json_print : num -> string) x,
+  is_finite x = true -> json_text_contract (json_print x) x ->
+  json_in true (json_out json_print x) = Ok x.
+Proof. exact json_reads_back_exact_build. Qed.
+Check C16_json_reads_back_exact_build : forall (json_print : num -> string) x,
+  is_finite x = true -> json_text_contract (json_print x) x ->
+  json_in true (json_out json_print x) = Ok x.
+Print Assumptions C16_json_reads_back_exact_build.
 
 (* F17: the first hypothesis of C16_json_reads_back is false for the shipped build — the
    transcribed serde_json number parser without float_roundtrip reads "1e-39" one ulp high *)
@@ -278,6 +292,12 @@ Print Assumptions C16_radix_value_is_rne.
 (* ------------------------------------------------------------------ the hypotheses are satisfiable *)
 Example parse_contract_satisfiable : parse_contract ref_str_parse.
 Proof. intros ip fp _ _ _. reflexivity. Qed.
+Example json_text_contract_example :
+  json_text_contract (ref_ryu (nb 0xb7d5c72fb1552d83)) (nb 0xb7d5c72fb1552d83).      (* "-1e-39" *)
+Proof.
+  exists "1", "", (Some (false, EMinus, "39")). vm_compute.
+  repeat split; try reflexivity; try discriminate; try (left; reflexivity); try (right; discriminate).
+Qed.
 Example parse_contract_signed_satisfiable : parse_contract_signed ref_str_parse.
 Proof. intros s ip fp _ _ _. reflexivity. Qed.
 Example display_contract_example : display_contract (ref_display (nb 0xbfb999999999999a)) (nb 0xbfb999999999999a).
